@@ -1,5 +1,5 @@
 """C18: random generators produce valid objects and are reproducible from a seed."""
-import itertools, math
+import itertools, math, sys, os
 import numpy as np
 from common import *
 
@@ -91,6 +91,7 @@ def run(ctx):
         jobs.append((name, ctype, ok, list(cases), list(meta), label, chunk))
 
     # ================================================================ _probvec kernels
+    if os.environ.get("VERIF_DEBUG"): sys.stderr.write("[%6.1fs] _probvec kernels\n" % (__import__("time").time() - ctx.t0))
     fcases, fmeta, qcases, qmeta = [], [], [], []
     for n in range(1, 12):
         for mode in ["float", "dyadic", "extreme", "ties"] * (3 * reps):
@@ -132,6 +133,7 @@ def run(ctx):
                 ctx.fail("probvec_simplex", "probvec(m,k) is not m points of the unit simplex", {"call": "probvec", "m": m, "k": k, "parallel": parallel}, x.tolist())
 
     # ================================================================ _sample_without_replacement kernel
+    if os.environ.get("VERIF_DEBUG"): sys.stderr.write("[%6.1fs] _sample_without_replacement kernel\n" % (__import__("time").time() - ctx.t0))
     cases, meta = [], []
     for n in range(1, 13):
         ks = sorted({1, n, rng.randrange(1, n + 1), max(1, n - 1)})
@@ -185,6 +187,7 @@ def run(ctx):
             ctx.count("swr:rejected")
 
     # ================================================================ random_stochastic_matrix through a scripted stream
+    if os.environ.get("VERIF_DEBUG"): sys.stderr.write("[%6.1fs] random_stochastic_matrix through a scrip\n" % (__import__("time").time() - ctx.t0))
     cases, meta = [], []
 
     def check_stochastic(P, n_rows, n, k, inp, degenerate_rows):
@@ -259,6 +262,7 @@ def run(ctx):
                     ctx.fail("seed_reproducible", "random_markov_chain(seed) differs from random_stochastic_matrix(seed)", inp)
 
     # ================================================================ random_discrete_dp assembly
+    if os.environ.get("VERIF_DEBUG"): sys.stderr.write("[%6.1fs] random_discrete_dp assembly\n" % (__import__("time").time() - ctx.t0))
     cases, meta, scases, smeta = [], [], [], []
     for _ in range(20 * reps):
         ns, na = rng.randrange(1, 5), rng.randrange(1, 4)
@@ -320,6 +324,7 @@ def run(ctx):
                 ctx.fail("seed_reproducible", "random_discrete_dp: same seed, different DP (or beta outside [0,1))", {"call": "random_discrete_dp", "ns": ns, "na": na, "kw": kw, "seed": seed})
 
     # ================================================================ tournament orientation kernel + graphs
+    if os.environ.get("VERIF_DEBUG"): sys.stderr.write("[%6.1fs] tournament orientation kernel + graphs\n" % (__import__("time").time() - ctx.t0))
     cases, meta = [], []
     for n in range(0, 8):
         ne = n * (n - 1) // 2
@@ -352,6 +357,7 @@ def run(ctx):
             ctx.fail("seed_reproducible", "random_tournament_graph: same seed, different graph", {"call": "random_tournament_graph", "n": n, "seed": seed})
 
     # ================================================================ Blotto
+    if os.environ.get("VERIF_DEBUG"): sys.stderr.write("[%6.1fs] Blotto\n" % (__import__("time").time() - ctx.t0))
     cases, meta = [], []
     hts = [(h, t) for h in range(1, 5) for t in range(0, 6)]
     if not thorough:
@@ -401,6 +407,7 @@ def run(ctx):
           cases, meta, "C18.Model.blotto_game vs bimatrix_generators._populate_blotto_payoff_arrays over simplex_grid", 4)
 
     # ================================================================ ranking
+    if os.environ.get("VERIF_DEBUG"): sys.stderr.write("[%6.1fs] ranking\n" % (__import__("time").time() - ctx.t0))
     cases, meta = [], []
     for n in range(1, 8):
         for rep in range(2 * reps):
@@ -443,6 +450,7 @@ def run(ctx):
           cases, meta, "C18.Model.ranking_payoffs vs bimatrix_generators._populate_ranking_payoff_arrays", 10)
 
     # ================================================================ SGC
+    if os.environ.get("VERIF_DEBUG"): sys.stderr.write("[%6.1fs] SGC\n" % (__import__("time").time() - ctx.t0))
     cases, meta = [], []
     for k in range(1, 6 if thorough else 5):
         g = sgc_game(k)
@@ -484,6 +492,7 @@ def run(ctx):
           cases, meta, "C18.Model.sgc_payoffs vs bimatrix_generators._populate_sgc_payoff_arrays", 2)
 
     # ================================================================ tournament game
+    if os.environ.get("VERIF_DEBUG"): sys.stderr.write("[%6.1fs] tournament game\n" % (__import__("time").time() - ctx.t0))
     cases, meta = [], []
     for n in range(1, 8):
         for k in range(1, min(3, n) + 1):
@@ -520,6 +529,7 @@ def run(ctx):
           cases, meta, "C18.Model.tournament_game (next_k_array / k_array_rank_jit over the sampled tournament) vs bimatrix_generators.tournament_game", 8)
 
     # ================================================================ unit vector game
+    if os.environ.get("VERIF_DEBUG"): sys.stderr.write("[%6.1fs] unit vector game\n" % (__import__("time").time() - ctx.t0))
     cases, meta = [], []
     for n in range(1, 8):
         for rep in range(2 * reps):
@@ -555,7 +565,17 @@ def run(ctx):
     queue("unit_vector", "nat * list Z * list (list Q)", "fun c => let '(n, ones, P0) := c in Qss_eqb (unit_vector_payoff0 n ones) P0",
           cases, meta, "C18.Model.unit_vector_payoff0 vs bimatrix_generators.unit_vector_game", 20)
 
+    # all Coq cases are queued by now: evaluate them in the background while the Python-only oracles below run
+    from concurrent.futures import ThreadPoolExecutor as _TPE
+
+    def _one(job):
+        name, ctype, ok, cases, meta, label, chunk = job
+        return job, ctx.coq_check(name, IMPORTS, ctype, ok, cases, chunk=chunk)
+    _ex = _TPE(max_workers=4)
+    futures = [_ex.submit(_one, job) for job in jobs]
+
     # ================================================================ degenerate sizes + exact draw accounting
+    if os.environ.get("VERIF_DEBUG"): sys.stderr.write("[%6.1fs] degenerate sizes + exact draw accounting\n" % (__import__("time").time() - ctx.t0))
     # Every generator is run on a passed RandomState and a passed Generator; a reference stream with the same seed
     # consumes the documented draws, a pure-Python reference computes the value from them, and the NEXT draw of both
     # streams must coincide (the generator advanced the stream by exactly the documented amount).
@@ -871,7 +891,230 @@ def run(ctx):
                     np.array([[1.0 if v in S else 0.0 for v in range(n)] for S in subsets]).reshape(m, n))
         degenerate_case("tournament_game", {"n": n, "k": k}, lambda rs, n=n, k=k: tuple(p.payoff_array for p in tournament_game(n, k, random_state=rs).players), ref_tgame)
 
+    # ================================================================ hardening: dress / sequences / buffers / optional arguments
+    if os.environ.get("VERIF_DEBUG"): sys.stderr.write("[%6.1fs] hardening: dress / sequences / buffers /\n" % (__import__("time").time() - ctx.t0))
+    import copy
+    from quantecon.markov import MarkovChain
+    from quantecon._graph_tools import DiGraph
+    from quantecon.game_theory.polymatrix_game import PolymatrixGame
+    i32, i64, ip, u8, f32, f64 = np.int32, np.int64, np.intp, np.uint8, np.float32, np.float64
+
+    def canon_form(o):
+        """comparable form of whatever a generator returns"""
+        if sp.issparse(o):
+            return ("sparse", o.format, o.toarray())
+        if isinstance(o, MarkovChain):
+            return ("mc", canon_form(o.P))
+        if isinstance(o, DiscreteDP):
+            return ("ddp", np.asarray(o.R), canon_form(o.Q) if sp.issparse(o.Q) else np.asarray(o.Q), float(o.beta),
+                    None if o.s_indices is None else np.asarray(o.s_indices), None if o.a_indices is None else np.asarray(o.a_indices))
+        if isinstance(o, DiGraph):
+            return ("graph", o.csgraph.toarray())
+        if isinstance(o, NormalFormGame):
+            return ("game",) + tuple(p.payoff_array for p in o.players)
+        if isinstance(o, PolymatrixGame):
+            return ("poly",) + tuple((k_, np.asarray(v_)) for k_, v_ in sorted(o.polymatrix.items()))
+        if isinstance(o, (tuple, list)):
+            return tuple(canon_form(v) for v in o)
+        return o
+
+    def deep_equal(u, v):
+        if isinstance(u, tuple) or isinstance(v, tuple):
+            return isinstance(u, tuple) and isinstance(v, tuple) and len(u) == len(v) and all(deep_equal(a_, b_) for a_, b_ in zip(u, v))
+        if isinstance(u, np.ndarray) or isinstance(v, np.ndarray):
+            u, v = np.asarray(u), np.asarray(v)
+            return u.shape == v.shape and u.dtype == v.dtype and np.array_equal(u, v)
+        return u == v
+
+    def harden(cls, name, desc, canon, variant, snapshot=()):
+        inp = {"call": name, "variant": desc, "class": cls}
+        ctx.case(("harden", cls, name, desc), nontrivial=True)
+        ctx.count("%s:%s" % (cls, name))
+        before = copy.deepcopy(list(snapshot))
+        try:
+            r1 = canon_form(canon())
+            r2 = canon_form(variant())
+        except Exception as e:
+            ctx.fail("hardening_exception", "%s (%s): raises %r on a valid input" % (name, desc, e), inp)
+            return
+        if not deep_equal(r1, r2):
+            ctx.fail("hardening_" + cls.split(":")[0], "%s: %s differs from the canonical call with the same seed" % (name, desc), inp)
+        for b_, a_ in zip(before, snapshot):
+            if type(b_) is not type(a_) or not np.array_equal(np.asarray(b_), np.asarray(a_)):
+                ctx.fail("hardening_mutation", "%s (%s): an argument was modified by the call" % (name, desc), inp)
+    for rep in range(2 * reps):
+        sd = rng.randrange(10**6)
+        m_, k_, n_ = rng.randrange(1, 5), rng.randrange(2, 6), rng.randrange(3, 8)
+        kk = rng.randrange(1, n_)
+        nt = rng.randrange(1, 4)
+        # ---- class 1: NumPy-integer dress of every size argument, float dress of every real argument
+        # np.int64 / np.intp share the compiled signatures of Python ints; np.int32 / np.uint8 cost one numba specialisation
+        # per jitted kernel, so the quick tier draws one of them per repetition (both in thorough)
+        all_dress = [("np.int64", i64), ("np.intp", ip)] + ([("np.int32", i32), ("np.uint8", u8)] if thorough else [rng.choice([("np.int32", i32), ("np.uint8", u8)])])
+        for lab, I in all_dress:
+            harden("dress:" + lab, "probvec", "m, k as %s" % lab, lambda: probvec(m_, k_, random_state=sd), lambda: probvec(I(m_), I(k_), random_state=sd))
+            harden("dress:" + lab, "sample_without_replacement", "n, k, num_trials as %s" % lab,
+                   lambda: sample_without_replacement(n_, kk, num_trials=nt, random_state=sd), lambda: sample_without_replacement(I(n_), I(kk), num_trials=I(nt), random_state=sd))
+            harden("dress:" + lab, "random_stochastic_matrix", "n, k as %s" % lab, lambda: random_stochastic_matrix(n_, kk, random_state=sd),
+                   lambda: random_stochastic_matrix(I(n_), I(kk), random_state=sd))
+            harden("dress:" + lab, "random_markov_chain", "n, k as %s, sparse" % lab, lambda: random_markov_chain(n_, kk, sparse=True, random_state=sd),
+                   lambda: random_markov_chain(I(n_), I(kk), sparse=True, random_state=sd))
+            harden("dress:" + lab, "random_discrete_dp", "num_states, num_actions, k as %s" % lab, lambda: random_discrete_dp(3, 2, k=2, random_state=sd),
+                   lambda: random_discrete_dp(I(3), I(2), k=I(2), random_state=sd))
+            harden("dress:" + lab, "random_tournament_graph", "n as %s" % lab, lambda: random_tournament_graph(n_, random_state=sd), lambda: random_tournament_graph(I(n_), random_state=sd))
+            harden("dress:" + lab, "random_game", "nums_actions entries as %s" % lab, lambda: random_game((2, 3), random_state=sd), lambda: random_game((I(2), I(3)), random_state=sd))
+            harden("dress:" + lab, "covariance_game", "nums_actions entries as %s" % lab, lambda: covariance_game((2, 3), 0.25, random_state=sd), lambda: covariance_game((I(2), I(3)), 0.25, random_state=sd))
+            harden("dress:" + lab, "random_pure_actions", "nums_actions entries as %s" % lab, lambda: random_pure_actions((4, 3, 5), random_state=sd),
+                   lambda: random_pure_actions((I(4), I(3), I(5)), random_state=sd))
+            harden("dress:" + lab, "random_mixed_actions", "nums_actions entries as %s" % lab, lambda: random_mixed_actions((4, 1, 3), random_state=sd),
+                   lambda: random_mixed_actions((I(4), I(1), I(3)), random_state=sd))
+            harden("dress:" + lab, "blotto_game", "h, t as %s" % lab, lambda: blotto_game(2, 3, 0.5, random_state=sd), lambda: blotto_game(I(2), I(3), 0.5, random_state=sd))
+            harden("dress:" + lab, "ranking_game", "n, steps as %s" % lab, lambda: ranking_game(4, 5, random_state=sd), lambda: ranking_game(I(4), I(5), random_state=sd))
+            if I is not u8:     # scipy.special.comb(np.uint8, np.uint8, exact=True) returns a non-comparable Integer object: TypeError in the unchanged code
+                harden("dress:" + lab, "tournament_game", "n, k as %s" % lab, lambda: tournament_game(5, 2, random_state=sd), lambda: tournament_game(I(5), I(2), random_state=sd))
+            harden("dress:" + lab, "unit_vector_game", "n as %s" % lab, lambda: unit_vector_game(3, True, random_state=sd), lambda: unit_vector_game(I(3), True, random_state=sd))
+            harden("dress:" + lab, "sgc_game", "k as %s" % lab, lambda: sgc_game(2), lambda: sgc_game(I(2)))
+        for lab, Fl in (("int", int), ("np.float32", f32), ("np.float64", f64)):
+            rho_v = 0 if Fl is int else 0.5
+            harden("dress:" + lab, "blotto_game", "rho, mu as %s" % lab, lambda: blotto_game(2, 2, float(rho_v), 1.0, random_state=sd), lambda: blotto_game(2, 2, Fl(rho_v), Fl(1), random_state=sd))
+            harden("dress:" + lab, "covariance_game", "rho as %s" % lab, lambda: covariance_game((2, 2), float(rho_v), random_state=sd), lambda: covariance_game((2, 2), Fl(rho_v), random_state=sd))
+            harden("dress:" + lab, "random_discrete_dp", "beta, scale as %s" % lab, lambda: random_discrete_dp(2, 2, beta=0.5 if Fl is not int else 0.0, scale=2.0, random_state=sd),
+                   lambda: random_discrete_dp(2, 2, beta=Fl(0.5) if Fl is not int else 0, scale=Fl(2), random_state=sd))
+        for lab, mk in (("list", list), ("tuple", tuple)):
+            snap = [mk((2, 3, 2))]
+            harden("dress:" + lab, "random_game", "nums_actions as %s" % lab, lambda: random_game((2, 3, 2), random_state=sd), lambda: random_game(snap[0], random_state=sd), snapshot=snap)
+            harden("dress:" + lab, "random_polymatrix_game", "nums_actions as %s" % lab, lambda: random_polymatrix_game((2, 3, 2), random_state=sd),
+                   lambda: random_polymatrix_game(snap[0], random_state=sd), snapshot=snap)
+            harden("dress:" + lab, "random_mixed_actions", "nums_actions as %s" % lab, lambda: random_mixed_actions((2, 3, 2), random_state=sd),
+                   lambda: random_mixed_actions(snap[0], random_state=sd), snapshot=snap)
+        for lab, arr in (("int32 array", np.array([2, 3, 2], dtype=i32)), ("non-contiguous int64 view", np.array([2, 9, 3, 9, 2, 9])[::2])):
+            snap = [arr]
+            harden("dress:array", "covariance_game", "nums_actions as %s" % lab, lambda: covariance_game((2, 3, 2), 0.25, random_state=sd), lambda: covariance_game(snap[0], 0.25, random_state=sd), snapshot=snap)
+            harden("dress:array", "random_pure_actions", "nums_actions as %s" % lab, lambda: random_pure_actions((2, 3, 2), random_state=sd), lambda: random_pure_actions(snap[0], random_state=sd), snapshot=snap)
+            harden("dress:array", "random_mixed_actions", "nums_actions as %s" % lab, lambda: random_mixed_actions((2, 3, 2), random_state=sd), lambda: random_mixed_actions(snap[0], random_state=sd), snapshot=snap)
+        # ---- class 4: optional arguments omitted / explicit default / falsy-but-valid
+        harden("opt:default", "probvec", "parallel omitted vs True vs False", lambda: probvec(m_, k_, random_state=sd), lambda: probvec(m_, k_, sd, True))
+        harden("opt:explicit", "probvec", "parallel=False", lambda: probvec(m_, k_, random_state=sd), lambda: probvec(m_, k_, random_state=sd, parallel=False))
+        harden("opt:default", "sample_without_replacement", "num_trials omitted vs None", lambda: sample_without_replacement(n_, kk, None, sd), lambda: sample_without_replacement(n_, kk, random_state=sd))
+        harden("opt:default", "random_stochastic_matrix", "k, sparse, format omitted vs None, False, 'csr'", lambda: random_stochastic_matrix(n_, None, False, "csr", sd), lambda: random_stochastic_matrix(n_, random_state=sd))
+        harden("opt:explicit", "random_stochastic_matrix", "k = n explicit vs None", lambda: random_stochastic_matrix(n_, None, random_state=sd), lambda: random_stochastic_matrix(n_, n_, random_state=sd))
+        harden("opt:default", "random_stochastic_matrix", "format omitted vs 'csr' (sparse)", lambda: random_stochastic_matrix(n_, kk, True, "csr", sd), lambda: random_stochastic_matrix(n_, kk, sparse=True, random_state=sd))
+        for fmt in ("csr", "csc", "coo", "lil", "dok", "bsr", "dia"):
+            ctx.case(("harden", "format", fmt, n_, kk, sd), nontrivial=True)
+            ctx.count("opt:format:%s" % fmt)
+            try:
+                P = random_stochastic_matrix(n_, kk, sparse=True, format=fmt, random_state=sd)
+                D = random_stochastic_matrix(n_, kk, random_state=sd)
+                if not (sp.issparse(P) and P.format == fmt and np.array_equal(P.toarray(), D)):
+                    ctx.fail("hardening_opt", "random_stochastic_matrix(format=%r): wrong format or entries differ from the dense matrix of the same seed" % fmt,
+                             {"call": "random_stochastic_matrix", "n": n_, "k": kk, "format": fmt, "seed": sd})
+            except Exception as e:
+                ctx.fail("hardening_exception", "random_stochastic_matrix(format=%r) raises %r" % (fmt, e), {"call": "random_stochastic_matrix", "n": n_, "k": kk, "format": fmt, "seed": sd})
+        harden("opt:default", "random_markov_chain", "k, sparse omitted vs None, False", lambda: random_markov_chain(n_, None, False, sd), lambda: random_markov_chain(n_, random_state=sd))
+        harden("opt:default", "random_discrete_dp", "all optional arguments omitted vs explicit defaults", lambda: random_discrete_dp(3, 2, None, None, 1, False, False, sd), lambda: random_discrete_dp(3, 2, random_state=sd))
+        harden("opt:explicit", "random_discrete_dp", "k = num_states explicit vs None", lambda: random_discrete_dp(3, 2, k=None, random_state=sd), lambda: random_discrete_dp(3, 2, k=3, random_state=sd))
+        for lab, bz in (("0", 0), ("0.0", 0.0), ("np.float64(0)", f64(0))):
+            ctx.case(("harden", "beta-falsy", lab, sd), nontrivial=True)
+            ctx.count("opt:falsy:random_discrete_dp")
+            try:
+                dz = random_discrete_dp(3, 2, beta=bz, random_state=sd)
+                dn = random_discrete_dp(3, 2, beta=0.25, random_state=sd)
+                if not (dz.beta == 0 and np.array_equal(dz.R, dn.R) and np.array_equal(dz.Q, dn.Q)):
+                    ctx.fail("hardening_opt", "random_discrete_dp(beta=%s): the falsy but valid discount factor is not used as given" % lab,
+                             {"call": "random_discrete_dp", "beta": lab, "seed": sd}, float(dz.beta), 0.0)
+            except Exception as e:
+                ctx.fail("hardening_exception", "random_discrete_dp(beta=%s) raises %r" % (lab, e), {"call": "random_discrete_dp", "beta": lab, "seed": sd})
+        try:
+            ctx.case(("harden", "scale-falsy", sd), nontrivial=True)
+            ctx.count("opt:falsy:random_discrete_dp")
+            d0 = random_discrete_dp(3, 2, scale=0, random_state=sd)
+            d1 = random_discrete_dp(3, 2, random_state=sd)
+            if not ((np.asarray(d0.R) == 0).all() and np.array_equal(d0.Q, d1.Q) and d0.beta == d1.beta):
+                ctx.fail("hardening_opt", "random_discrete_dp(scale=0): rewards are not all zero / other draws changed", {"call": "random_discrete_dp", "scale": 0, "seed": sd})
+        except Exception as e:
+            ctx.fail("hardening_exception", "random_discrete_dp(scale=0) raises %r" % (e,), {"call": "random_discrete_dp", "scale": 0, "seed": sd})
+        harden("opt:default", "blotto_game", "mu omitted vs 0 vs 0.0", lambda: blotto_game(2, 3, 0.5, 0.0, sd), lambda: blotto_game(2, 3, 0.5, random_state=sd))
+        harden("opt:falsy", "blotto_game", "rho = 0, mu = 0 (ints)", lambda: blotto_game(2, 3, 0.0, 0.0, sd), lambda: blotto_game(2, 3, 0, 0, sd))
+        harden("opt:default", "ranking_game", "steps omitted vs 10", lambda: ranking_game(4, 10, sd), lambda: ranking_game(4, random_state=sd))
+        harden("opt:default", "unit_vector_game", "avoid_pure_nash omitted vs False", lambda: unit_vector_game(3, False, sd), lambda: unit_vector_game(3, random_state=sd))
+        harden("opt:keyword", "tournament_game", "keywords vs positions", lambda: tournament_game(5, 2, sd), lambda: tournament_game(n=5, k=2, random_state=sd))
+        gs = rng.randrange(2**31)
+        for nm, f0, f1 in (("probvec", lambda: probvec(2, 3), lambda: probvec(2, 3, None)), ("random_stochastic_matrix", lambda: random_stochastic_matrix(3, 2), lambda: random_stochastic_matrix(3, 2, random_state=None)),
+                           ("random_game", lambda: random_game((2, 2)), lambda: random_game((2, 2), None)), ("unit_vector_game", lambda: unit_vector_game(3, True), lambda: unit_vector_game(3, True, None)),
+                           ("random_tournament_graph", lambda: random_tournament_graph(4), lambda: random_tournament_graph(4, None))):
+            def with_global(f):
+                np.random.seed(gs)
+                return f()
+            harden("opt:default", nm, "random_state omitted vs None (same global seed)", lambda: with_global(f0), lambda: with_global(f1))
+        # ---- class 2: one RandomState / Generator reused by several generators in sequence = the same calls on a twin stream,
+        #      and each generator in the middle of the sequence = the generator alone on a stream advanced by the earlier ones
+        for mkrs in (lambda: np.random.RandomState(sd), lambda: np.random.default_rng(sd)):
+            seqf = [lambda r: probvec(2, 3, random_state=r), lambda r: random_stochastic_matrix(4, 2, random_state=r), lambda r: sample_without_replacement(6, 3, random_state=r),
+                    lambda r: unit_vector_game(2, True, random_state=r), lambda r: random_discrete_dp(2, 2, random_state=r), lambda r: tournament_game(4, 2, random_state=r),
+                    lambda r: random_mixed_actions((3, 1, 2), random_state=r), lambda r: ranking_game(3, random_state=r), lambda r: blotto_game(2, 2, 0.3, random_state=r)]
+            rng.shuffle(seqf)
+            ctx.case(("harden", "seq", sd, str(type(mkrs()))), nontrivial=True)
+            ctx.count("seq:shared_stream")
+            try:
+                ra, rb = mkrs(), mkrs()
+                for idx, g_ in enumerate(seqf):
+                    oa = canon_form(g_(ra))
+                    twin = copy.deepcopy(rb)           # a stream in the state reached so far: the generator alone on it
+                    ob = canon_form(g_(rb))
+                    oc = canon_form(g_(twin))
+                    if not (deep_equal(oa, ob) and deep_equal(oa, oc)) or ra.random() != rb.random():
+                        ctx.fail("hardening_seq", "generator number %d in a sequence sharing one stream depends on more than the stream state" % idx, {"call": "sequence", "seed": sd})
+                        break
+            except Exception as e:
+                ctx.fail("hardening_exception", "sequence of generators on one shared stream raises %r" % (e,), {"call": "sequence", "seed": sd})
+        # repeated calls with other sizes in between (guvectorize / jit caches)
+        harden("seq:interleaved", "probvec", "same call after other sizes and targets", lambda: probvec(m_, k_, random_state=sd),
+               lambda: (probvec(m_, k_, random_state=sd), probvec(1, 2, random_state=1), probvec(5, 7, random_state=2, parallel=False), probvec(0, 3), probvec(m_, k_, random_state=sd))[4])
+        harden("seq:interleaved", "sample_without_replacement", "same call after other sizes", lambda: sample_without_replacement(n_, kk, nt, sd),
+               lambda: (sample_without_replacement(n_, kk, nt, sd), sample_without_replacement(12, 12), sample_without_replacement(1, 1, 0), sample_without_replacement(n_, kk, nt, sd))[3])
+        harden("seq:interleaved", "sgc_game", "same call after other k", lambda: sgc_game(2), lambda: (sgc_game(2), sgc_game(3), sgc_game(1), sgc_game(2))[3])
+        # ---- class 3: kernel buffers: garbage-prefilled / reused / non-contiguous out and r; results do not alias
+        for kern, kname in ((_probvec_cpu, "_probvec_cpu"), (_probvec_parallel, "_probvec_parallel")):
+            r0 = uniforms(rng, (3, k_ - 1), "float")
+            fresh = np.empty((3, k_))
+            kern(r0.copy(), fresh)
+            buf = np.full((3, k_), -7.5)
+            ret = kern(r0.copy(), buf)
+            wide = np.full((3, 2 * k_), 9.0)
+            kern(r0.copy(), wide[:, ::2])
+            rwide = np.zeros((3, 2 * (k_ - 1)))
+            rwide[:, ::2] = r0
+            again = np.empty((3, k_))
+            kern(rwide[:, ::2], again)
+            kern(np.sort(r0[::-1].copy(), axis=1), buf)           # reuse the same buffer for other data ...
+            kern(r0.copy(), buf)                                  # ... and again for the first
+            ctx.case(("harden", "buffer", kname, tuple(r0.ravel())), nontrivial=True)
+            ctx.count("buffer:%s" % kname)
+            if not (np.array_equal(buf, fresh) and np.array_equal(wide[:, ::2], fresh) and (wide[:, 1::2] == 9.0).all() and np.array_equal(again, fresh)):
+                ctx.fail("hardening_buffer", "%s: a garbage-prefilled / reused / strided output or input buffer gives a different result" % kname, {"call": kname, "r": r0.tolist()})
+        rr = uniforms(rng, (kk,), "float")
+        o_fresh = _sample_without_replacement(n_, rr.copy())
+        o_buf = np.full(kk, -5, dtype=np.int64)
+        _sample_without_replacement(n_, rr.copy(), o_buf)
+        o_dress = _sample_without_replacement(i32(n_), np.repeat(rr, 2)[::2])
+        ctx.case(("harden", "buffer", "_sample_without_replacement", n_, tuple(rr)), nontrivial=True)
+        ctx.count("buffer:_sample_without_replacement")
+        if not (np.array_equal(o_buf, o_fresh) and np.array_equal(o_dress, o_fresh) and o_dress.dtype == o_fresh.dtype):
+            ctx.fail("hardening_buffer", "_sample_without_replacement: supplied out buffer / np.int32 n / strided r gives a different result", {"call": "_sample_without_replacement", "n": n_, "r": rr.tolist()})
+        x1 = probvec(m_, k_, random_state=sd)
+        x2 = probvec(m_, k_, random_state=sd)
+        x2[...] = -1
+        x3 = probvec(m_, k_, random_state=sd)
+        g1 = random_game((2, 2), random_state=sd)
+        g2 = random_game((2, 2), random_state=sd)
+        g2.players[0].payoff_array[...] = -1
+        ctx.case(("harden", "alias", sd), nontrivial=True)
+        ctx.count("alias:results")
+        if np.shares_memory(x1, x3) or not np.array_equal(x1, x3) or np.shares_memory(g1.players[0].payoff_array, g2.players[0].payoff_array) or (g1.players[0].payoff_array == -1).any():
+            ctx.fail("hardening_mutation", "results of successive generator calls alias each other", {"call": "probvec/random_game", "seed": sd})
+
     # ================================================================ shapes, seeds, advancement of a passed generator
+    if os.environ.get("VERIF_DEBUG"): sys.stderr.write("[%6.1fs] shapes, seeds, advancement of a passed g\n" % (__import__("time").time() - ctx.t0))
     gens = {
         "probvec": lambda rs: probvec(3, 4, random_state=rs),
         "sample_without_replacement": lambda rs: sample_without_replacement(7, 3, random_state=rs),
@@ -952,13 +1195,8 @@ def run(ctx):
         except ValueError:
             ctx.count("games:rejected")
 
-    from concurrent.futures import ThreadPoolExecutor as _TPE
-
-    def _one(job):
-        name, ctype, ok, cases, meta, label, chunk = job
-        return job, ctx.coq_check(name, IMPORTS, ctype, ok, cases, chunk=chunk)
-    with _TPE(max_workers=4) as ex:
-        results = list(ex.map(_one, jobs))
+    results = [f_.result() for f_ in futures]       # Coq correspondence checks started before the Python-only sections
+    _ex.shutdown()
     for (name, ctype, ok, cases, meta, label, chunk), bad in results:
         for i in bad:
             ctx.mismatch(label, meta[i])
